@@ -27,12 +27,38 @@ def observe_grid(dens_id, N, t0=0.5, T=2.0):
     return [(float(v) - t0) / T for v in t]
 
 
+def observe_dense_edges(spec, N, t0=0.5, T=2.0):
+    """DenseEdgesGrid(multiplier, edge_frac): nodes through the public API, and the share of the grid object's own density
+    between consecutive observed nodes (composite Simpson, 400 panels per interval)."""
+    from rockit.sampling_method import DenseEdgesGrid
+    mult, frac = spec[1:].split('-')
+    grid = DenseEdgesGrid(multiplier=float(mult), edge_frac=float(frac))
+    ocp = Ocp(t0=t0, T=T)
+    x = ocp.state(); u = ocp.control(); ocp.set_der(x, u)
+    ocp.add_objective(ocp.integral(u ** 2)); ocp.solver('ipopt')
+    ocp.method(MultipleShooting(N=N, M=1, intg='rk', grid=grid))
+    ts, _ = quiet(ocp.sample, x, grid='control')
+    n = [(float(v) - t0) / T for v in np.array(ca.evalf(ts)).reshape(-1)]
+    rho = ca.Function('rho', [grid.t], [grid.density])
+    def mass(a, b, m=400):
+        xs = np.linspace(a, b, 2 * m + 1)
+        ys = np.array(rho(xs.reshape(1, -1))).reshape(-1)
+        return (b - a) / (6 * m) * (ys[0] + ys[-1] + 4 * ys[1:-1:2].sum() + 2 * ys[2:-1:2].sum())
+    total = mass(0.0, 1.0, 4000)
+    return n, [mass(n[k], n[k + 1]) / total for k in range(N)]
+
+
 def run(pairs, Ns):
     obs = []
     for (a, b) in pairs:
         for N in Ns:
             # two grids with different densities and the same N, one after the other in the same process
             for d in (a, b):
+                if d.startswith('E'):
+                    n, m = observe_dense_edges(d, N)
+                    obs.append({'id': '%s|%s|N%d|%s' % (a, b, N, d), 'density': [], 'N': N, 'mass': [[int(round(v * 4096)), 4096] for v in m],
+                                'nodes': [[int(round(v * 4096)), 4096] for v in n], 'raw': n})
+                    continue
                 n = observe_grid(d, N)
                 obs.append({'id': '%s|%s|N%d|%s' % (a, b, N, d), 'density': DENSITIES[d], 'N': N,
                             'nodes': [[int(round(v * 128)), 128] for v in n], 'raw': n})
